@@ -1,6 +1,7 @@
 // C14 correspondence + search harness: attribute value / point id deduplication, MeshCleanup, the two
 // builders (TriangleSoupMeshBuilder, PointCloudBuilder) against the Coq model (Model/Dedup.v, Model/Cleanup.v),
-// plus implementation-only checks of MeshStripifier.
+// and MeshStripifier against Model/Strips.v (the library's opposite-corner table is an input of that model) plus a direct
+// decode of the library's strip stream.
 //
 // Line protocol (see driver/d_C14.ml):
 //   GEO  := <np> <na> ( <ncomp> <dtype> <ident> <VALS> <MAP> ){na} <FACES>
@@ -10,6 +11,7 @@
 //   cl <dgen dup unused manifold> <pos> <GEO> | fail  or  ok <GEO'>
 //   soup <nf> <na> ( <ncomp> <dtype> <VALS 3*nf> ){na} | null or <GEO'>
 //   pcb <np> <dedup> <na> ( <ncomp> <dtype> <VALS np> ){na} | <GEO'>
+//   strip <r|d> <FACES> <OPP: Opposite(c) for every corner, -1 = none, or 'null' if no corner table> | <index stream, R = restart> or fail
 #include "common.h"
 #include <algorithm>
 #include <array>
